@@ -1099,6 +1099,9 @@ def check_results_report_obligations(fnode):
         if isinstance(s, _ast.For) and any(isinstance(c, _ast.Call) and getattr(c.func, "attr", None) == "append" and getattr(c.func.value, "id", None) == "to_change" for c in _ast.walk(s)):
             loop = s
             break
+    names = {n.id for n in _ast.walk(fnode) if isinstance(n, _ast.Name)}
+    if not {"to_change", "imin", "all_fun"} <= names:
+        return []            # the sidecar's names are not the code's names any more: nothing is known (the bounded stand-in decides)
     if loop is None:
         return [("check_results reports failed functions by appending to `to_change` inside a loop", False, fnode.lineno)]
     lv = loop.target.id if isinstance(loop.target, _ast.Name) else None
